@@ -10,6 +10,7 @@ import (
 	"context"
 	"encoding/json"
 	"fmt"
+	"io"
 	"math/rand"
 	"os"
 	"reflect"
@@ -24,6 +25,7 @@ import (
 	"github.com/prometheus/client_golang/prometheus"
 	dto "github.com/prometheus/client_model/go"
 	"go.uber.org/zap"
+	"go.uber.org/zap/zapcore"
 
 	"github.com/metal-toolbox/audito-maldito/ingesters/namedpipe"
 	"github.com/metal-toolbox/audito-maldito/ingesters/syslog"
@@ -38,8 +40,24 @@ const (
 	MachineID = "verif-machine-0123456789abcdef"
 )
 
+var (
+	nopLogger   = zap.NewNop().Sugar()
+	debugLogger = zap.New(zapcore.NewCore(zapcore.NewJSONEncoder(zap.NewProductionEncoderConfig()),
+		zapcore.AddSync(io.Discard), zap.DebugLevel)).Sugar()
+)
+
 func init() {
-	sshd.SetLogger(zap.NewNop().Sugar())
+	sshd.SetLogger(nopLogger)
+}
+
+// SetDebug switches the sshd processor's package logger between a disabled one and one at debug level (rendered and
+// thrown away): what a line yields must not depend on the daemon's --log-level.
+func SetDebug(on bool) {
+	if on {
+		sshd.SetLogger(debugLogger)
+	} else {
+		sshd.SetLogger(nopLogger)
+	}
 }
 
 // Vector is one TLC-enumerated vector (after JSON decoding).
